@@ -1,6 +1,7 @@
 (* Prop_C19.v — property theorems for C19, and nothing else. *)
 From Dig Require Import Base Sig State Graph GraphProofs Register Resolve Run Spec Check
-  ErrTable Err ErrTableCheck Dot RunViz P_Frame P_Reg P_C19.
+  ErrTable Err ErrTableCheck Dot RunViz DotText P_Frame P_Reg P_C19 P_DotText.
+From Coq Require Import String.
 
 (* ---- C19: after every operation the graph Visualize builds from the model
         state is the picture of the accepted registrations: one cluster per
@@ -38,3 +39,38 @@ Theorem C19_missing_marked_partial : forall st g e ks,
   odot_of (update_graph st g e) = mkOD [] [] [] (map key_result ks).
 Proof. exact P_C19.update_graph_missing. Qed.
 Print Assumptions C19_missing_marked_partial.
+
+(* ---- C19, syntax.  DotText.render is the byte-for-byte model of visualizeGraph /
+        visualizeGroup / visualizeCtor and of the String / Attributes methods of
+        internal/dot (every run compares it with the text the implementation wrote).
+        For EVERY names table (arbitrary type, name, group and function strings) and
+        every graph, the text is the print of a DOT syntax tree whose leaves are well
+        formed: quoted IDs are Go/DOT double-quoted tokens, bare IDs identifiers or
+        numerals, HTML-like labels well-nested with escaped text ---- *)
+Theorem C19_text_wellformed : forall nm g,
+  render nm g = print_dot (ast_of nm g) /\ ast_wf (ast_of nm g) = true.
+Proof. exact P_DotText.C19_text_wellformed. Qed.
+Print Assumptions C19_text_wellformed.
+
+(* the escaping theorems behind it (defect D11 was a missing html.EscapeString):
+   every label built from arbitrary strings is well-formed HTML-like text *)
+Theorem C19_result_labels_wellformed : forall nm r, html_label_ok (result_label nm r) = true.
+Proof. exact P_DotText.result_label_ok. Qed.
+Print Assumptions C19_result_labels_wellformed.
+
+Theorem C19_group_labels_wellformed : forall nm g, html_label_ok (group_label nm g) = true.
+Proof. exact P_DotText.group_label_ok. Qed.
+Print Assumptions C19_group_labels_wellformed.
+
+Theorem C19_html_escape_safe : forall s, text_safe (html_escape s) = true.
+Proof. exact P_DotText.html_escape_safe. Qed.
+Print Assumptions C19_html_escape_safe.
+
+(* strconv.Quote as modelled: always a well-formed quoted token, and lossless *)
+Theorem C19_quote_wellformed : forall s, dq_ok (go_quote s) = true.
+Proof. exact P_DotText.dq_ok_go_quote. Qed.
+Print Assumptions C19_quote_wellformed.
+
+Theorem C19_quote_roundtrip : forall s, go_unquote (go_quote s) = Some s.
+Proof. exact P_DotText.go_unquote_quote. Qed.
+Print Assumptions C19_quote_roundtrip.
